@@ -10,6 +10,14 @@
 //! can delay every write / sync by a generated number of microseconds, and can *hold* the k-th
 //! write or the k-th sync at a gate until the harness opens it (used to force a pile-up in the
 //! write- or the fsync-coalescing queue).  For every other descriptor it is a pass-through.
+//!
+//! Fault injection (`set_write_fault` / `set_sync_fault`, cleared by `arm`): the write calls with
+//! index `at .. at+count` on the target fail with the given errno without touching the file; with
+//! `short != 0` the call `at` first writes a proper prefix of its buffer (length chosen
+//! monotonically from `short`) and reports that length, and the failures start with the next call.
+//! The sync calls with index `at .. at+count` fail with the given errno without syncing (and so
+//! never advance `SYNCED`).  Every injected event is appended to `FAULT_LOG` with the value of
+//! `LEN` and of the harness clock at that moment.
 
 #![allow(clippy::missing_safety_doc)]
 
@@ -36,6 +44,79 @@ pub static ODD_WRITES: AtomicU64 = AtomicU64::new(0);
 pub static WRITE_TRACE: Mutex<Vec<(u64, u64)>> = Mutex::new(Vec::new());
 pub static SYNC_TRACE: Mutex<Vec<u64>> = Mutex::new(Vec::new());
 
+/// One logical clock for the harness threads and the shim (invocation / response / fault stamps).
+pub static CLOCK: AtomicU64 = AtomicU64::new(1);
+pub fn tick() -> u64 {
+    CLOCK.fetch_add(1, Ordering::SeqCst)
+}
+
+// write faults: calls W_FAIL_FROM .. W_FAIL_FROM + W_FAIL_COUNT fail; W_SHORT_AT = index of the call
+// that is cut short first (u64::MAX = none), W_SHORT_FRAC chooses the prefix length
+static W_FAIL_FROM: AtomicU64 = AtomicU64::new(u64::MAX);
+static W_FAIL_COUNT: AtomicU64 = AtomicU64::new(0);
+static W_ERRNO: AtomicI32 = AtomicI32::new(0);
+static W_SHORT_AT: AtomicU64 = AtomicU64::new(u64::MAX);
+static W_SHORT_FRAC: AtomicU64 = AtomicU64::new(0);
+static S_FAIL_FROM: AtomicU64 = AtomicU64::new(u64::MAX);
+static S_FAIL_COUNT: AtomicU64 = AtomicU64::new(0);
+static S_ERRNO: AtomicI32 = AtomicI32::new(0);
+/// successful write calls that came after a failed (or cut short) write call
+pub static WRITES_AFTER_FAILURE: AtomicU64 = AtomicU64::new(0);
+static W_FAILED: AtomicBool = AtomicBool::new(false);
+
+#[derive(Clone, Copy, Debug, PartialEq, Eq)]
+pub enum FaultKind {
+    WriteFailed,
+    WriteShort,
+    SyncFailed,
+}
+
+#[derive(Clone, Copy, Debug)]
+pub struct FaultEvent {
+    pub kind: FaultKind,
+    /// index of the call among the writes (syncs) on the target
+    pub idx: u64,
+    /// `LEN` when the call was made (for a short write: before the prefix was written)
+    pub len_at: u64,
+    /// bytes the caller asked to write (0 for syncs)
+    pub asked: u64,
+    /// bytes written by a short write
+    pub wrote: u64,
+    pub stamp: u64,
+}
+
+pub static FAULT_LOG: Mutex<Vec<FaultEvent>> = Mutex::new(Vec::new());
+
+/// Fail the write calls `at .. at+count` (count = u64::MAX: for ever).  `short` in 1..=65535 cuts
+/// call `at` short first (a prefix of 1 .. n-1 bytes is written) and moves the failures to the calls
+/// after it.  Call after `arm`.
+pub fn set_write_fault(at: u64, count: u64, errno: c_int, short: u16) {
+    W_ERRNO.store(errno, Ordering::SeqCst);
+    W_FAIL_COUNT.store(count, Ordering::SeqCst);
+    if short == 0 {
+        W_SHORT_AT.store(u64::MAX, Ordering::SeqCst);
+        W_FAIL_FROM.store(at, Ordering::SeqCst);
+    } else {
+        W_SHORT_FRAC.store(short as u64, Ordering::SeqCst);
+        W_FAIL_FROM.store(u64::MAX, Ordering::SeqCst);
+        W_SHORT_AT.store(at, Ordering::SeqCst);
+    }
+}
+
+pub fn set_sync_fault(at: u64, count: u64, errno: c_int) {
+    S_ERRNO.store(errno, Ordering::SeqCst);
+    S_FAIL_COUNT.store(count, Ordering::SeqCst);
+    S_FAIL_FROM.store(at, Ordering::SeqCst);
+}
+
+fn in_window(idx: u64, from: u64, count: u64) -> bool {
+    from != u64::MAX && idx >= from && (count == u64::MAX || idx - from < count)
+}
+
+fn set_errno(e: c_int) {
+    unsafe { *libc::__errno_location() = e };
+}
+
 pub fn arm(fd: c_int, write_delay_us: u64, sync_delay_us: u64) {
     LEN.store(0, Ordering::SeqCst);
     SYNCED.store(0, Ordering::SeqCst);
@@ -50,6 +131,12 @@ pub fn arm(fd: c_int, write_delay_us: u64, sync_delay_us: u64) {
     GATE_OPEN.store(false, Ordering::SeqCst);
     WRITE_TRACE.lock().unwrap().clear();
     SYNC_TRACE.lock().unwrap().clear();
+    W_FAIL_FROM.store(u64::MAX, Ordering::SeqCst);
+    W_SHORT_AT.store(u64::MAX, Ordering::SeqCst);
+    S_FAIL_FROM.store(u64::MAX, Ordering::SeqCst);
+    W_FAILED.store(false, Ordering::SeqCst);
+    WRITES_AFTER_FAILURE.store(0, Ordering::SeqCst);
+    FAULT_LOG.lock().unwrap().clear();
     TARGET_FD.store(fd, Ordering::SeqCst);
 }
 
@@ -97,10 +184,37 @@ pub unsafe extern "C" fn write(fd: c_int, buf: *const c_void, n: size_t) -> ssiz
         gate();
     }
     nap(WRITE_DELAY_US.load(Ordering::Relaxed));
+    // injected faults
+    if idx == W_SHORT_AT.load(Ordering::SeqCst) {
+        if n >= 2 {
+            let p = 1 + (((n as u64 - 2) * W_SHORT_FRAC.load(Ordering::SeqCst)) >> 16) as usize;
+            let len_at = LEN.load(Ordering::SeqCst);
+            let r = f(fd, buf, p);
+            if r > 0 {
+                let off = LEN.fetch_add(r as u64, Ordering::SeqCst);
+                WRITE_TRACE.lock().unwrap().push((off, r as u64));
+            }
+            FAULT_LOG.lock().unwrap().push(FaultEvent { kind: FaultKind::WriteShort, idx, len_at, asked: n as u64, wrote: r.max(0) as u64, stamp: tick() });
+            W_FAILED.store(true, Ordering::SeqCst);
+            W_FAIL_FROM.store(idx + 1, Ordering::SeqCst);
+            return r;
+        }
+        // nothing to cut: fail this call instead
+        W_FAIL_FROM.store(idx, Ordering::SeqCst);
+    }
+    if in_window(idx, W_FAIL_FROM.load(Ordering::SeqCst), W_FAIL_COUNT.load(Ordering::SeqCst)) {
+        FAULT_LOG.lock().unwrap().push(FaultEvent { kind: FaultKind::WriteFailed, idx, len_at: LEN.load(Ordering::SeqCst), asked: n as u64, wrote: 0, stamp: tick() });
+        W_FAILED.store(true, Ordering::SeqCst);
+        set_errno(W_ERRNO.load(Ordering::SeqCst));
+        return -1;
+    }
     let r = f(fd, buf, n);
     if r > 0 {
         let off = LEN.fetch_add(r as u64, Ordering::SeqCst);
         WRITE_TRACE.lock().unwrap().push((off, r as u64));
+        if W_FAILED.load(Ordering::SeqCst) {
+            WRITES_AFTER_FAILURE.fetch_add(1, Ordering::SeqCst);
+        }
     }
     if r < 0 || r as usize != n {
         ODD_WRITES.fetch_add(1, Ordering::SeqCst);
@@ -119,6 +233,11 @@ fn sync_common(fd: c_int, f: extern "C" fn(c_int) -> c_int) -> c_int {
     nap(SYNC_DELAY_US.load(Ordering::Relaxed));
     // Everything written before the sync starts is covered by it once it has succeeded.
     let covered = LEN.load(Ordering::SeqCst);
+    if in_window(idx, S_FAIL_FROM.load(Ordering::SeqCst), S_FAIL_COUNT.load(Ordering::SeqCst)) {
+        FAULT_LOG.lock().unwrap().push(FaultEvent { kind: FaultKind::SyncFailed, idx, len_at: covered, asked: 0, wrote: 0, stamp: tick() });
+        set_errno(S_ERRNO.load(Ordering::SeqCst));
+        return -1;
+    }
     SYNC_TRACE.lock().unwrap().push(covered);
     let r = f(fd);
     if r == 0 {
